@@ -358,12 +358,48 @@ def _log_noop(ex, st, pos, kw, node, star):
     return [(st, VNone())]
 
 
+LOGREC = TupleKey("logrec", [("level", INT), ("msg", STR)])
+LEVELS = {"warning": 30, "error": 40, "critical": 50}
+
+
+def log_cell(st):
+    c = st.ghost.get("log_cell")
+    if c is None:
+        c = st.alloc(HeapObj("cell", val=VSeq.of(LOGREC, [])))
+        st.ghost["log_cell"] = c
+    return c
+
+
 def _log_record(level):
     def h(ex, st, pos, kw, node, star):
+        msg = ops.deref(st, pos[0])
         lg = st.ghost.get("log", ())
-        st.ghost["log"] = lg + ((level, ops.deref(st, pos[0]), node.lineno),)
+        st.ghost["log"] = lg + ((level, msg, node.lineno),)
+        c = log_cell(st)
+        if isinstance(msg, VStr):
+            st.heap[c.oid].val = st.heap[c.oid].val.append(LOGREC.pack([VInt(LEVELS[level]), msg]))
         return [(st, VNone())]
     return h
+
+
+@stub("logging.logger.isEnabledFor")
+def _is_enabled_for(ex, st, pos, kw, node, star):
+    # debug-only code paths are not verified (A7): DEBUG logging is taken to be disabled
+    return [(st, VBool(False))]
+
+
+@stub("dataclasses.asdict")
+def _asdict(ex, st, pos, kw, node, star):
+    v = pos[0]
+    if isinstance(v, VAtom) and isinstance(v.kind, Abstract):
+        flds = {}
+        for a, k in v.kind.attrs.items():
+            if a.startswith(("item:", "isa:", "__")):
+                continue
+            val = v.kind.attr(v, a)
+            flds[a] = st.alloc(HeapObj("cell", val=val)) if isinstance(val, (VSeq, VSet, VMap)) else val
+        return [(st, st.alloc(HeapObj("inst", cls="$dict", fields=flds)))]
+    raise Unsupported("asdict of a non-abstract object")
 
 
 for _lvl in ("warning", "error", "critical"):
